@@ -198,18 +198,39 @@ def depth_of(line, _):
 
 
 def trusted_base_list(text):
-    """names of every assumed item of the shim/spec (external_body fns, assume_specifications, axioms)"""
+    """names of every assumed item of the shim/spec (external_body fns, assume_specifications, axioms), qualified by the
+    enclosing impl where there is one"""
     items = []
-    for m in re.finditer(r'pub assume_specification(?:<[^>]*>)?\s*\[\s*([^\]]+?)\s*\]', text):
+    for m in re.finditer(r'pub assume_specification(?:<[^\[]*>)?\s*\[\s*(.+?)\s*\]\s*\(', text):
         items.append('assume_specification ' + re.sub(r'\s+', ' ', m.group(1)))
-    for m in re.finditer(r'#\[verifier::external_body\]\s*(?:/\*.*?\*/\s*)?(?:pub )?(?:broadcast )?(proof fn|fn|const fn)\s+(\w+)', text, re.S):
-        items.append(('axiom ' if m.group(1) == 'proof fn' else 'external_body ') + m.group(2))
+    lines = text.split('\n')
+    starts = [0]
+    for l in lines:
+        starts.append(starts[-1] + len(l) + 1)
+    import bisect
+    for m in re.finditer(r'#\[verifier::external_body\]\s*(?:/\*.*?\*/\s*)?(?:#\[[^\]]*\]\s*)*(?:pub )?(?:broadcast )?(proof fn|fn|const fn)\s+(\w+)', text, re.S):
+        ln = bisect.bisect_right(starts, m.start(2)) - 1
+        ind = len(lines[ln]) - len(lines[ln].lstrip())
+        owner = ''
+        for k in range(ln - 1, max(ln - 400, -1), -1):
+            l = lines[k]
+            if not l.strip():
+                continue
+            i2 = len(l) - len(l.lstrip())
+            if i2 < ind:
+                mm = re.match(r'\s*(?:pub )?(?:unsafe )?impl(?:<.*?>)?\s+(.*?)\s*\{', l)
+                if mm:
+                    owner = re.sub(r'\s+', ' ', mm.group(1))
+                    owner = re.sub(r'^.*? for ', '', owner) if ' for ' in owner and m.group(2) not in ('from',) else owner
+                    owner += '::'
+                break
+        items.append(('axiom ' if m.group(1) == 'proof fn' else 'external_body ') + owner + m.group(2))
     return sorted(set(items))
 
 
 ASSUMPTION_IDS = [
     'A-VERUS: Verus 0.2026.09.13 + Z3 are sound',
-    'A-EXTRACT: the mechanical rewrites R1-R13 / drops D-a..D-f of DESIGN.md section 4 preserve semantics (counts in coverage.extraction)',
+    'A-EXTRACT: the mechanical rewrites R1-R15 / drops D-a..D-f of DESIGN.md section 4 preserve semantics (counts in coverage.extraction)',
     'A-ROLLBACK: a request that returns Err or aborts leaves no state or balance change (chain semantics); all safety clauses are phrased on Ok',
     'A-CHAIN: the chain executes each message of an Ok response exactly once and credits attached funds before execute',
     'A-STORE: cw-storage-plus save/load/remove/update/is_empty as specified in shim (namespaces disjoint, keys are raw id bytes)',
